@@ -685,6 +685,63 @@ def run_routes(unit, ctx):
             "counters": {"route_cases": ev}}
 
 
+# ---- sequences of resolutions on ONE resolver -------------------------------------------------------------
+SEQ_URLS = ["http://h.invalid/c14/a.json", "http://h.invalid/c14/b.json", "http://h.invalid/c14/c.json"]
+SEQ_DOCS = [
+    {"items": [{"enum": [1]}, {"enum": [2]}], "0": {"enum": [3]}, "x": {"enum": [4]}},         # array under "items"
+    {"items": {"0": {"enum": [5]}, "1": {"enum": [6]}}, "x": [{"enum": [7]}]},                  # object with digit keys
+    {"items": "abc", "x": {"0": {"enum": [8]}}},                                                # a string there
+]
+SEQ_FRAGS = ["/items/0", "/items/1", "/items/2", "/items", "/x/0", "/nope", "/items/-", "", "/0", "/items/01"]
+
+
+def seq_expected(doc, frag):
+    try:
+        return ("value", ref_resolve(doc, frag))
+    except pointer.PointerError:
+        return ("error", None)
+
+
+def run_seqs(unit, ctx):
+    """Every ordered pair (thorough: triple) of (document, fragment) resolutions on one resolver whose store holds
+    the three documents: each resolution answers for its own document and pointer, whatever was asked before
+    (a pointer that fails, the same fragment text met through an array / an object / a string ...)."""
+    _, shard, nsh = unit
+    steps = [(di, f) for di in range(len(SEQ_DOCS)) for f in SEQ_FRAGS]
+    depth = 3 if ctx.thorough else 2
+    ev = 0
+    outcomes, viol = {}, []
+    first = [st for i, st in enumerate(steps) if i % nsh == shard]
+    import itertools as _it
+    for head in first:
+        for tail in _it.product(steps, repeat=depth - 1):
+            seq = (head,) + tail
+            r = RefResolver("", {}, store={u: copy.deepcopy(dd) for u, dd in zip(SEQ_URLS, SEQ_DOCS)})
+            for si, (di, frag) in enumerate(seq):
+                ev += 1
+                want = seq_expected(SEQ_DOCS[di], frag)
+                route = ("resolve", "resolve_from_url")[si % 2]
+                try:
+                    ref = SEQ_URLS[di] + "#" + frag
+                    got = ("value", r.resolve(ref)[1] if route == "resolve" else r.resolve_from_url(ref))
+                except RefResolutionError:
+                    got = ("error", None)
+                except Exception as e:
+                    got = ("exc", type(e).__name__)
+                ok = got[0] == want[0] and (got[0] != "value" or (type(got[1]) is type(want[1]) and got[1] == want[1]))
+                key = "sequence:%s" % ("as-alone" if ok else "DIFFERS")
+                outcomes[key] = outcomes.get(key, 0) + 1
+                if not ok:
+                    viol.append({"signature": "C14|sequence-on-one-resolver|%s-after-%s" % (
+                        "wrong-value" if got[0] == "value" else ("unresolved" if got[0] == "error" else "crash-" + got[1]),
+                        "failed-pointer" if any(seq_expected(SEQ_DOCS[a], b)[0] == "error" for a, b in seq[:si]) else "successful-pointers"),
+                                 "size": si, "case": {"half": "seq", "steps": [list(st) for st in seq[:si + 1]]},
+                                 "detail": {"observed": list(got), "expected": list(want)}})
+                    break
+    return {"evaluations": ev, "nontrivial": ev, "violations": viol, "samples": [], "outcomes": outcomes,
+            "counters": {"sequence_steps": ev}}
+
+
 def plan(ctx):
     seqs = get_seqs(ctx.tier)
     n = 96 if ctx.tier == "quick" else 192
@@ -696,8 +753,10 @@ def plan(ctx):
             if sp != "raw" or "%" not in pointer.escape_token(t):
                 enc(sp, t)
     return {
-        "units": [(i, n) for i in range(n)] + [("sequences", i, 4) for i in range(4)] + [("routes", i, 3) for i in range(3)],
-        "rule": ("ROUTES: whole documents of every JSON type (null, false, true, 0, 1.5, '', [], {} ... 15 of them) and "
+        "units": [(i, n) for i in range(n)] + [("sequences", i, 4) for i in range(4)] + [("routes", i, 3) for i in range(3)] + [("seqs", i, 6) for i in range(6)],
+        "rule": ("SEQUENCES: every ordered pair (thorough: triple) of (document, fragment) resolutions over 3 stored "
+                 "documents x 10 fragments on ONE resolver (the same fragment text met through an array, an object with "
+                 "digit keys and a string; failing pointers first), alternating resolve / resolve_from_url.  ROUTES: whole documents of every JSON type (null, false, true, 0, 1.5, '', [], {} ... 15 of them) and "
                  "their direct children through resolve / resolve_from_url / resolving with the document in the "
                  "store, as the referrer, and served by a handler (retrieved once).  ARRAY TYPES: arrays given as list / tuple / UserList / deque of length 1, 2, 3, 12 at the root, as a "
                  "member and nested: every index (two spellings, identity of the value) and every non-index / "
@@ -739,6 +798,8 @@ def run_unit(unit, ctx):
         return run_sequences(unit, ctx)
     if unit[0] == "routes":
         return run_routes(unit, ctx)
+    if unit[0] == "seqs":
+        return run_seqs(unit, ctx)
     shard, nshards = unit
     seqs = get_seqs(ctx.tier)
     keys = tier_keys(ctx.tier)
@@ -909,6 +970,21 @@ def run_unit(unit, ctx):
 
 
 def replay(case, ctx):
+    if case.get("half") == "seq":
+        r = RefResolver("", {}, store={u: copy.deepcopy(dd) for u, dd in zip(SEQ_URLS, SEQ_DOCS)})
+        bad = None
+        for si, (di, frag) in enumerate(case["steps"]):
+            want = seq_expected(SEQ_DOCS[di], frag)
+            try:
+                ref = SEQ_URLS[di] + "#" + frag
+                got = ("value", r.resolve(ref)[1] if si % 2 == 0 else r.resolve_from_url(ref))
+            except RefResolutionError:
+                got = ("error", None)
+            except Exception as e:
+                got = ("exc", type(e).__name__)
+            if got[0] != want[0] or (got[0] == "value" and got[1] != want[1]):
+                bad = (si, got, want)
+        return {"reproduced": bad is not None, "first": bad}
     if case.get("half") == "route":
         doc = ROUTE_DOCS[case["doc_index"]]
         obs, ncalls = route_observations(doc, case["fragment"])
